@@ -259,10 +259,20 @@ func (r *seqRun) flush() {
 		r.sk.r.Extra["sum_violating_sequences_"+pv.assertion] = asInt(r.sk.r.Extra["sum_violating_sequences_"+pv.assertion]) + 1
 		path := append([]seqOp{}, r.path...)
 		detail := pv.detail
-		key := pv.assertion + "|" + r.sigOf(path)
-		if m, ok := shrinkMemo[key]; ok {
-			path, detail = m.path, m.detail
-		} else {
+		// a minimal form found earlier that is a subsequence of this path (ending in the same operation
+		// when the assertion belongs to the last operation) reproduces the same assertion: reuse it
+		key := fmt.Sprintf("%s|%s|%v|%s", pv.assertion, r.cfg.Name, pv.closing, path[len(path)-1])
+		if pv.closing {
+			key = fmt.Sprintf("%s|%s|closing", pv.assertion, r.cfg.Name)
+		}
+		reused := false
+		for _, m := range shrinkMemo[key] {
+			if isSubsequence(m.path, path) {
+				path, detail, reused = m.path, m.detail, true
+				break
+			}
+		}
+		if !reused {
 			for changed := true; changed; {
 				changed = false
 				for i := 0; i < len(path); i++ {
@@ -279,7 +289,7 @@ func (r *seqRun) flush() {
 					}
 				}
 			}
-			shrinkMemo[key] = shrunk{path, detail}
+			shrinkMemo[key] = append(shrinkMemo[key], shrunk{path, detail})
 		}
 		r.sk.violation(pv.assertion, r.sigOf(path), r.sigOf(path)+": "+detail, SeqReplay{Part: 2, Config: *r.cfg, Ops: pathStrings(path)})
 	}
@@ -290,7 +300,17 @@ type shrunk struct {
 	detail string
 }
 
-var shrinkMemo = map[string]shrunk{}
+var shrinkMemo = map[string][]shrunk{}
+
+func isSubsequence(sub, full []seqOp) bool {
+	i := 0
+	for _, o := range full {
+		if i < len(sub) && sub[i] == o {
+			i++
+		}
+	}
+	return i == len(sub)
+}
 
 func newSeqState(cfg *seqConfig) *seqState {
 	h, err := newPoolH(cfg)
